@@ -76,7 +76,6 @@ func TestVerifC12Replay(t *testing.T) {
 		plain.m.close()
 	}
 	w.Raw(vx.M{"k": "summary", "behaviours": len(behs), "steps": steps, "mismatches": mism, "rejected": rejected, "asimpl": asimpl})
-	_ = asimpl
 }
 
 // c12Pool: a small set of requests built to repeat and to collide: base requests, the same
